@@ -64,14 +64,14 @@ Proof. vm_compute. reflexivity. Qed.
 Theorem C13_refuted : ~ C13_full.
 Proof.
   intros H. specialize (H [4%nat] w_pops w_cops w_sched ltac:(repeat constructor)).
-  rewrite C13_witness_lost in H. discriminate.
+  rewrite C13_witness_lost in H. discriminate H.
 Qed.
 Print Assumptions C13_refuted.
 
 Theorem C13_refuted_isr : ~ C13_full_isr.
 Proof.
   intros H. specialize (H [4%nat] w_pops w_cops w_sched ltac:(repeat constructor) C13_witness_is_isr_disciplined).
-  rewrite C13_witness_lost in H. discriminate.
+  rewrite C13_witness_lost in H. discriminate H.
 Qed.
 Print Assumptions C13_refuted_isr.
 
@@ -86,7 +86,7 @@ Proof. vm_compute. split; reflexivity. Qed.
 Theorem C13_size1_refuted : ~ C13_full_isr_size1.
 Proof.
   intros H. destruct C13_size1_witness as [G W]. specialize (H w1_pops w_cops w_sched G).
-  rewrite W in H. discriminate.
+  rewrite W in H. discriminate H.
 Qed.
 Print Assumptions C13_size1_refuted.
 
@@ -152,7 +152,8 @@ Print Assumptions C13_partial_lock.
 Definition nv_ops : list sop :=
   program [(KNotif, 0%nat); (KInd, 3%nat); (KNotif, 5%nat)] [CDeq; CDeq; CConf; CDeq; CDeq]
           [true; true; true; false; true; true; true; false; false; false; false; true; true; true;
-           false; false; false; false; false; false; false; false; false; false; false; false; false; false].
+           false; false; false; false; false; false; false; false; false; false; false; false; false; false;
+           false; false; false; false; false; false; false; false].
 Example C13_partial_nonvacuous :
   wf_sizes [3; 1; 2]%nat /\
   guarded (fun s o => g_isr s o && g_irqoff s o) (sinit [3; 1; 2]%nat) nv_ops = true /\
@@ -194,6 +195,19 @@ Proof. vm_compute. reflexivity. Qed.
 
 Example C13_monitor_rejects_wrong_final_content :
   smonitor [4%nat] [ (Fin, OFinal [[1%N]] [0%nat] None) ] = Some (0%nat, t_final).
+Proof. vm_compute. reflexivity. Qed.
+
+(* cross-check by computation: executed one whole operation at a time, the micro-step model ends
+   in the state of the sequential model of C12 (same levels, same outstanding confirmation) *)
+Example C13_atomic_execution_is_the_C12_model :
+  let ops := [QueueN 0; QueueI 3; QueueN 3; QueueI 5; QueueN 6; QueueN 2; Dequeue; QueueN 0; Dequeue; Dequeue;
+              Confirm; Dequeue; QueueI 4; Dequeue; Dequeue; QueueN 7; Dequeue; Dequeue; Dequeue]%nat in
+  forallb (fun sizes =>
+     let a := atomic_run 40 sizes ops in let b := final (init sizes) ops in
+     levels_eqb (map lbytes (mem a)) (map lbytes (levels b)) &&
+     bytes_eqb (map N.of_nat (map lnxt (mem a))) (map N.of_nat (map lnxt (levels b))) &&
+     match outst a, outstanding b with Some x, Some y => Nat.eqb x y | None, None => true | _, _ => false end)
+    [[8]; [3; 1; 2; 2]; [1; 1; 6]; [5; 3]; [1; 7]]%nat = true.
 Proof. vm_compute. reflexivity. Qed.
 
 (* constants regenerated from notification_queue.hpp on every run *)
